@@ -50,6 +50,8 @@ def run(ctx):
     res.rule("I1-STEP/explicit", k)
     from rules import hist
     hist.run(ctx, res, 'C01')       # composition: histories through the public API against the reference model (rules/hist.py)
+    hist.run_sequences(ctx, res, "C01", "links", 4 if ctx.thorough else 3)      # every sequence of that many operations on one link; I1 also after calls that raised
+    common.vacuity(res, "SEQUENCE", 3000)
     common.vacuity(res, "HISTORY", 600)
     common.vacuity(res, "I1-STEP/core", 5000)
     common.vacuity(res, "I1-STEP/explicit", 300)
